@@ -262,6 +262,9 @@ func splitAddConst(v ssa.Value) (ssa.Value, int64) {
 
 // provesLE proves  E + extra <= len(s)  at block b (extra constant >= 0). Returns the lemma used.
 func provesLE(env *IntEnv, E ssa.Value, extra int64, s ssa.Value, b *ssa.BasicBlock) (string, bool) {
+	if l, ok := provesLEPoly(env, E, extra, s, b); ok {
+		return l, true
+	}
 	// interval
 	{
 		iv := env.At(E, b)
@@ -429,6 +432,9 @@ func nonNegative(env *IntEnv, v ssa.Value, b *ssa.BasicBlock, d int) bool {
 	if init, _, ok := loopCounter(v); ok && init >= 0 {
 		return true
 	}
+	if init, _, ok := symCounter(v, env, b); ok && init >= 0 {
+		return true
+	}
 	if base, c := splitAddConst(v); base != v {
 		if init, _, ok := loopCounter(base); ok && init+c >= 0 {
 			return true
@@ -501,6 +507,10 @@ func checkStrided(r *Report, rule string, f *ssa.Function) int {
 					if !le && env.At(x.Low, x.Block()).Hi <= env.At(hi, x.Block()).Lo {
 						le = true
 					}
+					if !le {
+						blk := x.Block()
+						le = polyGE0(polyAdd(polyOf(hi, 0), polyOf(x.Low, 0), -1), func(v ssa.Value) bool { return nonNegative(env, v, blk, 0) })
+					}
 					ok = ok && le && nonNegative(env, x.Low, x.Block(), 0)
 					lemmas = append(lemmas, fmt.Sprintf("0<=low<=high: %v", le))
 				}
@@ -530,4 +540,151 @@ func checkStrided(r *Report, rule string, f *ssa.Function) int {
 		}
 	})
 	return n
+}
+
+// symCounter: v is a loop counter phi(init, v+step) with a constant init >= 0 and a step that is a positive
+// constant or a loop-invariant value (returned as step value).
+func symCounter(v ssa.Value, env *IntEnv, b *ssa.BasicBlock) (init int64, step ssa.Value, ok bool) {
+	ph, isPhi := v.(*ssa.Phi)
+	if !isPhi {
+		return 0, nil, false
+	}
+	haveInit := false
+	for _, e := range ph.Edges {
+		if c, okc := e.(*ssa.Const); okc {
+			k, okk := constInt(c)
+			if !okk || (haveInit && k != init) {
+				return 0, nil, false
+			}
+			init, haveInit = k, true
+			continue
+		}
+		bo, isB := e.(*ssa.BinOp)
+		if !isB || bo.Op != token.ADD {
+			return 0, nil, false
+		}
+		var st ssa.Value
+		if bo.X == v {
+			st = bo.Y
+		} else if bo.Y == v {
+			st = bo.X
+		} else {
+			return 0, nil, false
+		}
+		if step != nil && !symEq(step, st, 0) {
+			return 0, nil, false
+		}
+		step = st
+	}
+	if !haveInit || step == nil || init < 0 {
+		return 0, nil, false
+	}
+	// the step must not change inside the loop: a constant, a parameter, or a value defined in a block
+	// that dominates the loop head
+	if _, isC := step.(*ssa.Const); !isC {
+		if in, isIn := step.(ssa.Instruction); isIn {
+			if in.Block() == ph.Block() || !in.Block().Dominates(ph.Block()) {
+				return 0, nil, false
+			}
+		}
+	}
+	if env.At(step, ph.Block()).Lo < 1 {
+		return 0, nil, false
+	}
+	return init, step, true
+}
+
+// provesLEPoly: E + extra <= len(s) by comparing polynomial normal forms against upper-bound facts U <= len(s):
+//   len(s) itself (when s = x[lo:hi] or make(n): its length is a known form);
+//   g < len(s), g <= len(s)                      (dominating guards)        U = g+1, g
+//   g < len(s)/K, K >= 1                         (lemma B)                  U = (g+1)*K
+//   j < len(s), len(s) % K == 0, j = 0,K,2K,...  (lemma A)                  U = j+K
+// The goal holds when U - E - extra is evidently >= 0 for some U.
+func provesLEPoly(env *IntEnv, E ssa.Value, extra int64, s ssa.Value, b *ssa.BasicBlock) (string, bool) {
+	pe := polyAdd(polyOf(E, 0), polyConst(extra), 1)
+	nonneg := func(v ssa.Value) bool { return nonNegative(env, v, b, 0) }
+	try := func(u poly) bool { return polyGE0(polyAdd(u, pe, -1), nonneg) }
+	if lp, ok := sliceLenPoly(s, 0); ok && try(lp) {
+		return "length of the locally built slice", true
+	}
+	found := ""
+	one := polyConst(1)
+	for _, g := range guardsOf(b) {
+		g = g.norm()
+		bo, ok := g.Cond.(*ssa.BinOp)
+		if !ok {
+			continue
+		}
+		op := bo.Op
+		if !g.Pol {
+			switch op {
+			case token.LSS:
+				op = token.GEQ
+			case token.LEQ:
+				op = token.GTR
+			case token.GTR:
+				op = token.LEQ
+			case token.GEQ:
+				op = token.LSS
+			default:
+				continue
+			}
+		}
+		x, y := bo.X, bo.Y
+		switch op {
+		case token.GTR:
+			x, y, op = y, x, token.LSS
+		case token.GEQ:
+			x, y, op = y, x, token.LEQ
+		}
+		if op != token.LSS && op != token.LEQ {
+			continue
+		}
+		strict := op == token.LSS
+		y = stripIntConv(y)
+		// x < len(s)  /  x <= len(s)
+		if isLenOf(y, s) {
+			u := polyOf(x, 0)
+			if strict {
+				u = polyAdd(u, one, 1)
+			}
+			if try(u) {
+				return "dominating guard against len", true
+			}
+			// lemma A
+			if strict {
+				if init, step, okc := symCounter(stripIntConv(x), env, b); okc {
+					cong := hasGuard(b, func(op token.Token, a, z ssa.Value) bool {
+						if op != token.EQL {
+							return false
+						}
+						if k, okz := constInt(z); !okz || k != 0 {
+							return false
+						}
+						rem, okr := a.(*ssa.BinOp)
+						return okr && rem.Op == token.REM && isLenOf(stripIntConv(rem.X), s) && symEq(stripIntConv(rem.Y), stripIntConv(step), 0)
+					})
+					// init must be a multiple of the step: 0 always is
+					if cong && init == 0 {
+						if try(polyAdd(polyOf(x, 0), polyOf(step, 0), 1)) {
+							return "lemma A (counter in steps of K, len % K == 0)", true
+						}
+					}
+				}
+			}
+			continue
+		}
+		// x < len(s)/K
+		if q, okq := y.(*ssa.BinOp); okq && q.Op == token.QUO && strict && isLenOf(stripIntConv(q.X), s) {
+			K := q.Y
+			if env.At(K, b).Lo < 1 {
+				continue
+			}
+			u := polyMul(polyAdd(polyOf(x, 0), one, 1), polyOf(K, 0))
+			if try(u) {
+				return "lemma B ((g+1)*K <= len for g < len/K)", true
+			}
+		}
+	}
+	return found, false
 }
